@@ -387,7 +387,7 @@ class Extractor:
                                  sha256=hashlib.sha256(raw.encode()).hexdigest(), rules=rules))
         return out, S
 
-    def fn(self, rel, container, name, opts, contract, loops, closures=None):
+    def fn(self, rel, container, name, opts, contract, loops, closures=None, retains=None):
         S = self.src(rel)
         lo, hi = self._scope(S, container)
         f = S.find_fn(name, lo, hi)
@@ -529,6 +529,92 @@ class Extractor:
                 if bind:
                     rules.append(('F2', f'closure {k}: parameter pattern bound by let', norm_ws(bind)[:80]))
             dels.sort(key=lambda d: (d[0], d[1]))
+        # ---- R1: `RECV.retain(|PARAMS| BODY);` desugared to a cursor loop (documented semantics of indexmap / hashbrown / arrayvec
+        #      `retain`: every entry is visited exactly once, in order; the entry is kept iff the closure returns true).  BODY is unchanged
+        #      except that `return E;` (= the closure's early result) becomes `{ CUR.keep(E); continue; }`.  The cursor type is a stub of the
+        #      unit's prelude (an ASSUMED dependency contract, listed as such); the loop invariant is specification only (E2).
+        #      Needed because Verus rejects closures that capture `&mut` state.
+        if retains:
+            mb = mask(body)
+            calls = [mt for mt in re.finditer(r'\.\s*retain\s*\(', mb)]
+            spans = {}
+            for k, rt in retains.items():
+                if k >= len(calls):
+                    raise ExtractError(f'fn {name}: retain call ordinal {k} not found ({len(calls)} calls)')
+                dot = calls[k].start()
+                po = calls[k].end() - 1
+                pc = match_close(mb, po)
+                a = dot
+                while a > 0 and (mb[a - 1].isalnum() or mb[a - 1] in '_. \t\n'):
+                    a -= 1
+                while a < dot and mb[a] in ' \t\n':
+                    a += 1
+                recv = norm_ws(body[a:dot]).replace(' ', '')
+                if not re.fullmatch(r'[A-Za-z_][\w]*(\.[A-Za-z_0-9]\w*)*', recv):
+                    raise ExtractError(f'fn {name}: retain {k}: receiver `{recv}` is not a plain place expression')
+                j = po + 1
+                while mb[j] in ' \t\n':
+                    j += 1
+                if mb[j] != '|':
+                    raise ExtractError(f'fn {name}: retain {k}: argument is not a closure literal')
+                p_close = mb.find('|', j + 1)
+                params = body[j + 1:p_close].strip()
+                b = p_close + 1
+                while mb[b] in ' \t\n':
+                    b += 1
+                is_block = mb[b] == '{'
+                if is_block:
+                    b_end = match_close(mb, b) + 1
+                    if mb[b_end:pc].strip().strip(',').strip():
+                        raise ExtractError(f'fn {name}: retain {k}: unexpected text after the closure')
+                else:
+                    b_end = pc
+                    while mb[b_end - 1] in ' \t\n,':
+                        b_end -= 1
+                e = pc + 1
+                while e < len(mb) and mb[e] in ' \t\n':
+                    e += 1
+                if e >= len(mb) or mb[e] != ';':
+                    raise ExtractError(f'fn {name}: retain {k}: the call is not a statement')
+                cur = rt['cur']
+                ghost = ''
+                if rt.get('fin'):
+                    # specification only: a ghost name for the value the receiver will have when the cursor's borrow of it ends
+                    ghost = 'let ghost ' + rt['fin'] + ' = *final(' + cur + '.map);\n'
+                head = ('{ let mut ' + cur + ' = ' + recv + '.retain_cursor();\n' + ghost + 'loop\n' + rt['inv'].rstrip('\n') + '\n{ let (' + params + ') = match ' + cur
+                        + '.next() { Some(e__) => e__, None => break };\nlet keep__: bool = ' + ('' if is_block else '{ '))
+                dels.append((a, b, head))
+                dels.append((b_end, e + 1, ('' if is_block else ' }') + ';\n' + cur + '.keep(keep__);\n}\n' + cur + '.finish(); }'))
+                spans[k] = (b, b_end, cur)
+                rules.append(('R1', f'retain {k}: `{recv}.retain(|{params}| ..)` desugared to cursor loop `{cur}` (visit each entry once in order; keep iff closure result)', ''))
+                rules.append(('E2', f'retain {k} loop invariant', f"{len(rt['inv'].splitlines())} lines"))
+            for mt in re.finditer(r'\breturn\b', mb):
+                inner = None
+                for k, (b, b_end, cur) in spans.items():
+                    if b <= mt.start() < b_end and (inner is None or b >= inner[0]):
+                        inner = (b, b_end, cur)
+                if inner is None:
+                    continue
+                # a `return` inside another (not desugared) closure nested in this one would belong to that closure
+                desugared_starts = set(sp[0] for sp in spans.values())
+                for (_po, _pc, cb, ce, _blk) in find_closures(mb):
+                    if cb not in desugared_starts and inner[0] <= cb and ce <= inner[1] and cb <= mt.start() < ce:
+                        raise ExtractError(f'fn {name}: `return` inside a closure nested in a desugared retain closure')
+                semi = mb.find(';', mt.end())
+                expr = body[mt.end():semi].strip()
+                dels.append((mt.start(), semi + 1, '{ ' + inner[2] + '.keep(' + expr + '); continue; }'))
+                rules.append(('R1', f'`return {norm_ws(expr)};` in the retain closure -> `{{ {inner[2]}.keep(..); continue; }}`', ''))
+            dels.sort(key=lambda d: (d[0], d[1]))
+        # ---- B1: non-short-circuit `A & B` on two side-effect-free operands (optionally negated / parenthesised variable or field path) -> `&&`
+        #      (same value, and neither operand has an effect whose evaluation could be skipped; Verus rejects `&` on bool)
+        if opts.get('booland'):
+            mb = mask(body)
+            opnd = r'(?:\(!?[A-Za-z_][\w.]*\)|!?[A-Za-z_][\w.]*)'
+            for mt in re.finditer(r'(?<![&\w.)])' + opnd + r'\s+&\s+' + opnd + r'(?![\w.(])', mb):
+                amp = mt.start() + mb[mt.start():mt.end()].index('&')
+                dels.append((amp, amp + 1, '&&'))
+                rules.append(('B1', 'non-short-circuit & on pure bool operands -> &&', norm_ws(body[mt.start():mt.end()])))
+            dels.sort(key=lambda d: (d[0], d[1]))
         # combine deletions and insertions
         pos = 0
         events = sorted([(d[0], 0, d[1], d[2] if len(d) > 2 else None) for d in dels]
@@ -660,6 +746,7 @@ def build_unit(template_path, repo_root, vacuity=False):
             contract = []
             loops = {}
             closures = {}
+            retains = {}
             cur = contract
             i += 1
             while i < len(tl) and not tl[i].strip().startswith('//@END'):
@@ -674,6 +761,14 @@ def build_unit(template_path, repo_root, vacuity=False):
                             cur.append('//@NAME ' + extra[5:])
                         if extra.startswith('desugar='):
                             cur.append('//@DESUGAR ' + extra[8:])
+                elif m2 and m2.group(1) == 'RETAIN':
+                    # //@RETAIN k cur=NAME      (following lines: invariant / decreases of the cursor loop)
+                    la = m2.group(2).split()
+                    k = int(la[0])
+                    cn = [x[4:] for x in la[1:] if x.startswith('cur=')]
+                    fn_ = [x[4:] for x in la[1:] if x.startswith('fin=')]
+                    retains[k] = dict(cur=cn[0] if cn else f'cur{k}__', fin=fn_[0] if fn_ else None, lines=[])
+                    cur = retains[k]['lines']
                 elif m2 and m2.group(1) == 'CLOSURE':
                     # //@CLOSURE k | typed parameter list | ret: Type      (following lines: requires / ensures)
                     cp = [x.strip() for x in m2.group(2).split('|')]
@@ -697,8 +792,10 @@ def build_unit(template_path, repo_root, vacuity=False):
             ltext = {k: '\n'.join(v) for k, v in loops.items()}
             for c in closures.values():
                 c['spec'] = '\n'.join(c['lines'])
+            for c in retains.values():
+                c['inv'] = '\n'.join(c['lines'])
             label = opts.get('label', name)
-            segs, S = ex.fn(rel, container, name, opts, ctext, ltext, closures)
+            segs, S = ex.fn(rel, container, name, opts, ctext, ltext, closures, retains)
             emit_segs(segs, S, label, opts.get('tag', ''))
             if vacuity and not opts.get('novac'):
                 # vacuity guard: a renamed COPY of the function with `ensures false` added; callers keep seeing the
@@ -713,7 +810,7 @@ def build_unit(template_path, repo_root, vacuity=False):
                     else:
                         vtext = vtext + '\n    ensures false,'
                 nrec = len(ex.records)
-                vsegs, S2 = ex.fn(rel, container, name, opts, vtext, ltext, closures)
+                vsegs, S2 = ex.fn(rel, container, name, opts, vtext, ltext, closures, retains)
                 del ex.records[nrec:]
                 done = False
                 for sg in vsegs:
